@@ -72,8 +72,13 @@ pub fn model_bytes(r: &Record, wb: usize) -> (Vec<u8>, Vec<(usize, usize, usize)
         }
         Shape::None => b.push(0),
         Shape::Vec | Shape::Append => {
-            // compact length, single-byte mode (the generator keeps n < 64)
-            b.push((r.vals.len() as u8) << 2);
+            // SCALE compact length: single-byte mode below 64 items, two-byte mode below 2^14
+            let n = r.vals.len();
+            if n < 64 {
+                b.push((n as u8) << 2);
+            } else {
+                b.extend_from_slice(&(((n as u16) << 2) | 1).to_le_bytes());
+            }
             payload(&mut b, &r.vals)
         }
         Shape::Rec => {
@@ -157,8 +162,8 @@ pub fn validate(table: &[Ops], t: &Trace) -> Result<(), String> {
             Shape::None => n == 0,
             Shape::Rec => n == 1 || n == 2,
             Shape::Sum => n <= 2,
-            Shape::Vec => n < 64,
-            Shape::Append => n < 64 && r.splits.iter().map(|x| *x as usize).sum::<usize>() == n,
+            Shape::Vec => n < 16384,
+            Shape::Append => n < 16384 && r.splits.iter().map(|x| *x as usize).sum::<usize>() == n,
         };
         if !ok {
             return Err(format!("record {}: {} values do not fit shape {:?}", i, n, r.shape));
@@ -319,15 +324,18 @@ fn serde_op(table: &[Ops], o: &SerdeOp, k: usize, log: &mut Log) -> Result<(), V
     let un = |p: Box<dyn std::any::Any + Send>| panic_msg(p);
     // S1: the token stream is exactly Struct{name,1} Field("bits") Int End
     let want = vec![Tok::Struct(l.struct_name.to_string(), 1), Tok::Field("bits".into()), Tok::Int(l.w, bits, l.signed), Tok::End];
-    match catch_unwind(|| (s.ser)(bits, o.wrapping)) {
-        Ok(Ok(toks)) => {
-            if toks != want {
-                log.ev(ev::CHECK_FAIL, check_no("S1"), k as u64);
-                return Err(viol("S1", k, &f0, format!("{} (wrapping={}) serialised as {:?}, want {:?}", l.name, o.wrapping, toks, want)));
+    // (for a serializer that calls itself human readable and for one that does not)
+    for hr in [true, false] {
+        match catch_unwind(|| (s.ser)(bits, o.wrapping, hr)) {
+            Ok(Ok(toks)) => {
+                if toks != want {
+                    log.ev(ev::CHECK_FAIL, check_no("S1"), k as u64);
+                    return Err(viol("S1", k, &f0, format!("{} (wrapping={}, human_readable={}) serialised as {:?}, want {:?}", l.name, o.wrapping, hr, toks, want)));
+                }
             }
+            Ok(Err(m)) => return Err(viol("S1", k, &f0, format!("{} (human_readable={}): serialize failed: {}", l.name, hr, m))),
+            Err(p) => return Err(viol("S1", k, &f0, format!("{}: serialize unwound: {}", l.name, un(p)))),
         }
-        Ok(Err(m)) => return Err(viol("S1", k, &f0, format!("{}: serialize failed: {}", l.name, m))),
-        Err(p) => return Err(viol("S1", k, &f0, format!("{}: serialize unwound: {}", l.name, un(p)))),
     }
     log.ev(ev::CHECK_OK, check_no("S1"), k as u64);
     // S2 / S3: every presentation x every stream fault
@@ -336,7 +344,8 @@ fn serde_op(table: &[Ops], o: &SerdeOp, k: usize, log: &mut Log) -> Result<(), V
             if fault == SerdeFault::ValueError && matches!(pres, Pres::Seq | Pres::SeqWidened) {
                 continue; // same as AccessError for sequences
             }
-            let r = catch_unwind(|| (s.de)(bits, o.wrapping, pres, fault));
+          for hr in [true, false] {
+            let r = catch_unwind(|| (s.de)(bits, o.wrapping, pres, fault, hr));
             log.ev(ev::REC_READ, (pres as u64) << 8 | fault as u64, k as u64);
             match r {
                 Err(p) => {
@@ -362,6 +371,7 @@ fn serde_op(table: &[Ops], o: &SerdeOp, k: usize, log: &mut Log) -> Result<(), V
                     }
                 }
             }
+          }
         }
     }
     log.ev(ev::CHECK_OK, check_no("S2"), k as u64);
